@@ -153,7 +153,7 @@ Definition exp_ops_nilsOperator : list (string * string) :=
 Definition exp_pre_nilsOperator : list string := [].
 
 Definition exp_ops_arrayOperator : list (string * string) :=
-  [("+", "if reflect.TypeOf(l).Kind() != reflect.Slice { return nil, fmt.Errorf(""E"", op, l, r) }; elemType := reflect.TypeOf(l).Elem(); if elemType.Kind() != reflect.Interface { t := reflect.ValueOf(r).Type() if elemType != t { err = fmt.Errorf(""E"", r, t, elemType) } } else if t := reflect.TypeOf(r); !t.AssignableTo(elemType) { err = fmt.Errorf(""E"", r, t, elemType) }; if err == nil { return reflect.Append(reflect.ValueOf(l), reflect.ValueOf(r)).Interface(), nil }");
+  [("+", "if reflect.TypeOf(l).Kind() != reflect.Slice { return nil, fmt.Errorf(""E"", op, l, r) }; elemType := reflect.TypeOf(l).Elem(); if elemType.Kind() != reflect.Interface { t := reflect.ValueOf(r).Type() if elemType != t { err = fmt.Errorf(""E"", r, t, elemType) } } else if t := reflect.TypeOf(r); !t.AssignableTo(elemType) { err = fmt.Errorf(""E"", r, t, elemType) }; if err == nil { lv := reflect.ValueOf(l) res := reflect.MakeSlice(lv.Type(), lv.Len(), lv.Len()+1) reflect.Copy(res, lv) return reflect.Append(res, reflect.ValueOf(r)).Interface(), nil }");
    ("default", "err = fmt.Errorf(""E"", op, l, r)")].
 
 Definition exp_pre_arrayOperator : list string := ["var err error";
